@@ -260,5 +260,22 @@ pub fn specs(tier: &str) -> Vec<ExpSpec> {
             }
         }
     }
+    // extended boot signature other than 0x29 (0x28: only the volume id is valid; 0x00: none of the three fields): the
+    // status byte next to it is not one of the fields the signature announces
+    for ft in [FatType::Fat12, FatType::Fat16, FatType::Fat32] {
+        let cfg = vol::tiny_with(ft, 8, 16);
+        for (sig, status) in [(0x28u8, 1u8), (0x00, 2), (0x00, 0), (0x28, 3)] {
+            if !th && ft == FatType::Fat16 && status != 1 {
+                continue;
+            }
+            let mut c = with_status(&cfg, status);
+            let Base::Bytes(img) = &*c.base else { unreachable!() };
+            let mut img = img.clone();
+            img[if ft == FatType::Fat32 { 66 } else { 38 }] = sig;
+            c.base = Arc::new(Base::Bytes(img));
+            c.name = format!("{}-sig{sig:02x}", c.name);
+            v.push(ExpSpec::new(c, alphabet(512), if th { 3 } else { 2 }));
+        }
+    }
     v
 }
